@@ -135,7 +135,17 @@ UNITS["C14"] = [
                       "NOT decided: that every committed change reaches match_changes, channel delivery, unpack_columns of the pk (see C09)"]),
 ]
 
+UNITS["C09"] = [
+    dict(kind="verus", name="c09_readers", template="specs/c09_readers.vrs",
+         under_contract=["Changeset::read_from", "SyncNeedV1::read_from", "SyncStateV1::read_from", "SqliteValue::read_from"],
+         vacuity=["Changeset::read_from", "SyncNeedV1::read_from", "SyncStateV1::read_from", "SqliteValue::read_from"], replay="c09_readers",
+         assumptions=["speedy Reader / primitive and derived Readable impls are dependency code: assumed total, consuming at least their minimum size on success",
+                      "generic signature `<R: Reader<'a, C>>(reader: &mut R) -> Result<Self, C::Error>` replaced by a concrete stand-in reader/error type",
+                      "reservation rule: an up-front reservation must be <= 65536 elements or <= remaining_bytes/8 elements"]),
+]
+
 NOTES = {
+    "C09": "totality of the hand-written decoders (no reachable panic, bounded reservations, UTF-8), packed-key width rule and round trip",
     "C14": "update-feed kernels: causal-length cache filter (latest state wins, older-after-newer dropped), cache trim keeps newest, delete/update parity",
     "C10": "seen-cache kernel of handle_changes: suppression test, drop-oldest eviction, cache insertion; cleared-decision of process_multiple_changes",
     "C03": "decision kernels of 'applied iff covered': Changeset::is_complete, PartialVersion::is_complete (shared with C02), insert_partial union (C02), completeness triggers",
